@@ -37,9 +37,7 @@ theorem slotAt_some_iff {cs : List Chunk} {k i t : Nat} :
   | none => simp
   | some c =>
     simp only [Option.some.injEq, exists_eq_left']
-    cases h2 : c.slots[i]? with
-    | none => simp
-    | some x => cases x <;> simp
+    rcases h2 : c.slots[i]? with _ | _ | u <;> simp
 
 theorem slotAt_none_of_free {cs : List Chunk} {k i : Nat} {c : Chunk} (hk : cs[k]? = some c)
     (hi : c.slots[i]? = some none) : slotAt cs k i = none := by
@@ -80,6 +78,14 @@ theorem slotAt_clear (cs : List Chunk) (k i k' i' : Nat) :
     simp only [hkk, if_false, this]
     cases cs[k']? <;> simp
 
+theorem prune_aux (t : Nat) (o : Option (Option Nat)) :
+    (o.map (fun x => if x = some t then x else none)).join =
+      if o.join = some t then some t else none := by
+  rcases o with _ | _ | u
+  · simp
+  · simp
+  · by_cases hu : u = t <;> simp [hu]
+
 theorem slotAt_prune (cs : List Chunk) (t k i : Nat) :
     slotAt (cs.map (pruneChunk t)) k i = if slotAt cs k i = some t then some t else none := by
   unfold slotAt
@@ -88,12 +94,7 @@ theorem slotAt_prune (cs : List Chunk) (t k i : Nat) :
   | none => simp
   | some c =>
     simp only [Option.map_some, pruneChunk, List.getElem?_map]
-    cases c.slots[i]? with
-    | none => simp
-    | some x =>
-      cases x with
-      | none => simp
-      | some u => by_cases hu : u = t <;> simp [hu]
+    exact prune_aux t _
 
 theorem slotAt_append (l : List Chunk) (c : Chunk) (k i : Nat) :
     slotAt (l ++ [c]) k i =
@@ -121,7 +122,7 @@ theorem slotAt_grow (c : Chunk) (i : Nat) : slotAt [c.grow] 0 i = slotAt [c] 0 i
   · simp [h]
   · have : c.slots[i]? = none := List.getElem?_eq_none (by omega)
     simp only [h, if_false, this]
-    split <;> simp
+    by_cases h2 : i - c.slots.length < c.cap * 2 - c.cap <;> simp [h2]
 
 /-! ### `expand_arena` in append form -/
 
@@ -130,7 +131,7 @@ theorem modify_last {α} (l : List α) (x : α) (f : α → α) :
   induction l with
   | nil => simp [List.modify]
   | cons a l ih =>
-    have : (a :: l ++ [x]).length - 1 = (l ++ [x]).length - 1 + 1 := by simp
+    have : (a :: (l ++ [x])).length - 1 = (l ++ [x]).length - 1 + 1 := by simp
     rw [List.cons_append, this, List.modify_succ_cons, ih]; rfl
 
 theorem expand_nil (g : Growth) : expand [] g = ([Chunk.fresh INIT_READER_COUNT], .first) := by
@@ -165,11 +166,12 @@ theorem slotAt_expand (cs : List Chunk) (g : Growth) (k i : Nat) :
       simp only [slotAt_append, slotAt_grow]
     | newChunk =>
       simp only
-      rw [slotAt_append]
+      rw [slotAt_append (l ++ [c])]
       have hl : (l ++ [c]).length = l.length + 1 := by simp
       by_cases h : k < (l ++ [c]).length
-      · simp [h]
-      · simp only [h, if_false, slotAt_fresh]
+      · rw [if_pos h]
+      · rw [if_neg h]
+        simp only [slotAt_fresh]
         rw [slotAt_append]
         have h1 : ¬ k < l.length := by omega
         have h2 : ¬ k = l.length := by omega
@@ -276,5 +278,279 @@ theorem scan_none {cs : List Chunk} (hwf : ∀ c ∈ cs, c.WF) {k0 : Nat} (h : s
         intro x hx
         have := List.findIdx?_eq_none_iff.mp hj x hx
         cases x <;> simp_all
+
+/-! ### the primitive updates keep every chunk well formed -/
+
+theorem mem_modify {α} {l : List α} {k : Nat} {f : α → α} {x : α} (h : x ∈ l.modify k f) :
+    x ∈ l ∨ ∃ y, l[k]? = some y ∧ x = f y := by
+  obtain ⟨j, hj⟩ := List.mem_iff_getElem?.mp h
+  rw [List.getElem?_modify] at hj
+  cases hy : l[j]? with
+  | none => simp [hy] at hj
+  | some y =>
+    simp only [hy, Option.map_eq_map, Option.map_some, Option.some.injEq] at hj
+    by_cases hk : k = j
+    · subst hk; right; exact ⟨y, hy, by simpa using hj.symm⟩
+    · left; simp only [hk, if_false] at hj; subst hj; exact List.mem_of_getElem? hy
+
+theorem mark_wf {cs : List Chunk} (h : ∀ c ∈ cs, c.WF) {k i t : Nat} {c : Chunk}
+    (hk : cs[k]? = some c) (hi : c.slots[i]? = some none) : ∀ c' ∈ mark cs k i t, c'.WF := by
+  intro c' hc'
+  rcases mem_modify hc' with hm | ⟨y, hy, rfl⟩
+  · exact h c' hm
+  · rw [hk] at hy; cases hy
+    obtain ⟨hlt, hv⟩ := List.getElem?_eq_some_iff.mp hi
+    have hw := h c (List.mem_of_getElem? hk)
+    constructor
+    · simp [hw.len]
+    · simp only
+      rw [List.countP_set hlt, hv, hw.used]; simp
+
+theorem clear_wf {cs : List Chunk} (h : ∀ c ∈ cs, c.WF) {k i t : Nat}
+    (hs : slotAt cs k i = some t) : ∀ c' ∈ clear cs k i, c'.WF := by
+  obtain ⟨c, hk, hi⟩ := slotAt_some_iff.mp hs
+  intro c' hc'
+  rcases mem_modify hc' with hm | ⟨y, hy, rfl⟩
+  · exact h c' hm
+  · rw [hk] at hy; cases hy
+    obtain ⟨hlt, hv⟩ := List.getElem?_eq_some_iff.mp hi
+    have hw := h c (List.mem_of_getElem? hk)
+    constructor
+    · simp [hw.len]
+    · simp only
+      rw [List.countP_set hlt, hv, hw.used]; simp
+
+theorem countP_prune (t : Nat) (l : List (Option Nat)) :
+    (l.map fun x => if x = some t then x else none).countP (·.isSome) +
+      l.countP (fun x => x.isSome && x != some t) = l.countP (·.isSome) := by
+  induction l with
+  | nil => simp
+  | cons a l ih =>
+    rw [List.countP_map] at ih ⊢
+    simp only [List.countP_cons, Function.comp]
+    rcases a with _ | u
+    · simp only [reduceCtorEq, if_false, Option.isSome_none, Bool.false_and, Bool.false_eq_true]
+      omega
+    · by_cases hu : u = t
+      · subst hu; simp; omega
+      · simp [hu]; omega
+
+theorem pruneChunk_wf (t : Nat) {c : Chunk} (h : c.WF) : (pruneChunk t c).WF := by
+  constructor
+  · simp [pruneChunk, h.len]
+  · simp only [pruneChunk]
+    have := countP_prune t c.slots
+    rw [h.used]; omega
+
+/-! ### the invariant -/
+
+structure Inv (s : State) : Prop where
+  wf        : ∀ c ∈ s.chunks, c.WF
+  reg_nodup : s.registry.Nodup
+  reg_iff   : ∀ k i, (k, i) ∈ s.registry ↔ (slotAt s.chunks k i).isSome = true
+  tls_slot  : ∀ t k i, s.tls t = some (k, i) ↔ slotAt s.chunks k i = some t
+  refc      : s.registry.length ≤ s.refcount
+
+inductive Reach : State → Prop
+  | init : Reach init
+  | step {s s' op out} : Reach s → step s op = some (s', out) → Reach s'
+
+theorem inv_init : Inv init := by
+  constructor <;> simp [init, slotAt]
+
+/-- what `arena_alloc` guarantees about the chunk list and slot it returns -/
+theorem arenaAlloc_spec {cs cs' : List Chunk} {g : Growth} {k i : Nat} {gr : Grew}
+    (hwf : ∀ c ∈ cs, c.WF) (h : arenaAlloc cs g = some (cs', (k, i), gr)) :
+    (∀ c ∈ cs', c.WF) ∧ (∀ k' i', slotAt cs' k' i' = slotAt cs k' i') ∧
+    (∃ c, cs'[k]? = some c ∧ c.slots[i]? = some none) ∧
+    (gr = .no → cs' = cs) ∧ (gr ≠ .no → (cs', gr) = expand cs g ∧ scan cs 0 = none) := by
+  unfold arenaAlloc at h
+  split at h
+  · next sl hsl =>
+    simp only [Option.some.injEq, Prod.mk.injEq] at h
+    obtain ⟨rfl, rfl, rfl⟩ := h
+    obtain ⟨-, c, h2, h3, -, -⟩ := scan_some hwf hsl
+    exact ⟨hwf, fun _ _ => rfl, ⟨c, by simpa using h2, h3⟩, fun _ => rfl, fun h => absurd rfl h⟩
+  · next hnone =>
+    have hw := expand_wf hwf g
+    have hs := slotAt_expand cs g
+    cases he : expand cs g with
+    | mk cs1 g1 =>
+      rw [he] at hw hs h
+      simp only at h hw hs
+      split at h
+      · next sl hsl =>
+        simp only [Option.some.injEq, Prod.mk.injEq] at h
+        obtain ⟨rfl, rfl, rfl⟩ := h
+        obtain ⟨-, c, h2, h3, -, -⟩ := scan_some hw hsl
+        refine ⟨hw, hs, ⟨c, by simpa using h2, h3⟩, ?_, fun _ => ⟨rfl, hnone⟩⟩
+        intro hno
+        -- expand never answers `.no`
+        exfalso
+        rcases nil_or_snoc cs with rfl | ⟨l, c0, rfl⟩
+        · rw [expand_nil] at he; cases he; cases hno
+        · rw [expand_snoc] at he; cases g <;> simp at he <;> (obtain ⟨-, rfl⟩ := he; cases hno)
+      · simp at h
+
+theorem inv_step {s s' : State} {op : Op} {out : Out} (h : Inv s)
+    (st : step s op = some (s', out)) : Inv s' := by
+  obtain ⟨hwf, hnd, hri, hts, hrc⟩ := h
+  cases op with
+  | register t g =>
+    simp only [step] at st
+    split at st
+    · simp at st
+    · next htls =>
+      split at st
+      · next hguard =>
+        split at st
+        · simp at st
+        · next cs k i gr ha =>
+          simp only [Option.some.injEq, Prod.mk.injEq] at st
+          obtain ⟨rfl, -⟩ := st
+          obtain ⟨hw', hsame, ⟨c, hk, hi⟩, -, -⟩ := arenaAlloc_spec hwf ha
+          have hlt : i < c.slots.length := (List.getElem?_eq_some_iff.mp hi).1
+          have hfree : slotAt s.chunks k i = none := by
+            rw [← hsame]; exact slotAt_none_of_free hk hi
+          have hnotin : (k, i) ∉ s.registry := by
+            intro hm; have := (hri k i).mp hm; simp [hfree] at this
+          have hnot : ∀ k' i', slotAt s.chunks k' i' ≠ some t := by
+            intro k' i' hc
+            have := (hts t k' i').mpr hc
+            simp [htls] at this
+          constructor
+          · exact mark_wf hw' hk hi
+          · exact List.nodup_cons.mpr ⟨hnotin, hnd⟩
+          · intro k' i'
+            simp only [slotAt_mark hk hlt, hsame, List.mem_cons, Prod.mk.injEq]
+            by_cases hc : k' = k ∧ i' = i
+            · simp [hc]
+            · simp only [hc, false_or, if_false]; exact hri k' i'
+          · intro u k' i'
+            simp only [slotAt_mark hk hlt, hsame, upd]
+            by_cases hu : u = t
+            · subst hu
+              by_cases hc : k' = k ∧ i' = i
+              · simp [hc]
+              · simp only [if_true, hc, if_false, Option.some.injEq, Prod.mk.injEq]
+                constructor
+                · intro hx; exact absurd ⟨hx.1.symm, hx.2.symm⟩ hc
+                · intro hx; exact absurd hx (hnot k' i')
+            · simp only [hu, if_false]
+              by_cases hc : k' = k ∧ i' = i
+              · simp only [hc, and_self, if_true, Option.some.injEq]
+                obtain ⟨rfl, rfl⟩ := hc
+                constructor
+                · intro hx; have := (hts u k' i').mp hx; simp [hfree] at this
+                · intro hx; exact absurd hx.symm hu
+              · simp only [hc, if_false]; exact hts u k' i'
+          · simp only [List.length_cons]; omega
+      · simp at st
+  | unregister t =>
+    simp only [step] at st
+    split at st
+    · simp at st
+    · next k i htls =>
+      simp only [Option.some.injEq, Prod.mk.injEq] at st
+      obtain ⟨rfl, -⟩ := st
+      have hs : slotAt s.chunks k i = some t := (hts t k i).mp htls
+      have hin : (k, i) ∈ s.registry := (hri k i).mpr (by simp [hs])
+      constructor
+      · exact clear_wf hwf hs
+      · exact hnd.erase _
+      · intro k' i'
+        simp only [slotAt_clear, hnd.mem_erase_iff, ne_eq, Prod.mk.injEq]
+        by_cases hc : k' = k ∧ i' = i
+        · simp [hc]
+        · simp only [hc, not_false_eq_true, true_and, if_false]; exact hri k' i'
+      · intro u k' i'
+        simp only [slotAt_clear, upd]
+        by_cases hu : u = t
+        · subst hu
+          simp only [if_true, reduceCtorEq, false_iff]
+          by_cases hc : k' = k ∧ i' = i
+          · simp [hc]
+          · simp only [hc, if_false]
+            intro hx
+            have := (hts u k' i').mpr hx
+            rw [htls] at this
+            simp only [Option.some.injEq, Prod.mk.injEq] at this
+            exact hc ⟨this.1.symm, this.2.symm⟩
+        · simp only [hu, if_false]
+          by_cases hc : k' = k ∧ i' = i
+          · obtain ⟨rfl, rfl⟩ := hc
+            simp only [and_self, if_true, reduceCtorEq, iff_false]
+            intro hx
+            have := (hts u k' i').mp hx
+            rw [hs] at this
+            exact hu (Option.some.inj this).symm
+          · simp only [hc, if_false]; exact hts u k' i'
+      · have := List.length_erase_of_mem hin
+        simp only; omega
+  | prune t =>
+    simp only [step, Option.some.injEq, Prod.mk.injEq] at st
+    obtain ⟨rfl, -⟩ := st
+    constructor
+    · intro c hc
+      obtain ⟨c0, hc0, rfl⟩ := List.mem_map.mp hc
+      exact pruneChunk_wf t (hwf c0 hc0)
+    · exact List.filter_sublist.nodup hnd
+    · intro k i
+      simp only [slotAt_prune, List.mem_filter, beq_iff_eq]
+      by_cases hx : slotAt s.chunks k i = some t
+      · simp [hx, hri k i]
+      · simp [hx]
+    · intro u k i
+      simp only [slotAt_prune]
+      by_cases hu : u = t
+      · subst hu
+        simp only [if_true]
+        rw [hts u k i]
+        by_cases hx : slotAt s.chunks k i = some u <;> simp [hx]
+      · simp only [hu, if_false, reduceCtorEq, false_iff]
+        by_cases hx : slotAt s.chunks k i = some t
+        · simp only [hx, if_true, Option.some.injEq]; exact fun h => hu h.symm
+        · simp [hx]
+    · have := List.length_filter_le (fun (x : Nat × Nat) => slotAt s.chunks x.1 x.2 == some t) s.registry
+      simp only; omega
+  | libInit =>
+    simp only [step, Option.some.injEq, Prod.mk.injEq] at st
+    obtain ⟨rfl, -⟩ := st
+    exact ⟨hwf, hnd, hri, hts, by simp only; omega⟩
+  | libExit =>
+    simp only [step] at st
+    split at st
+    · next hguard =>
+      split at st
+      · next hz =>
+        simp only [Option.some.injEq, Prod.mk.injEq] at st
+        obtain ⟨rfl, -⟩ := st
+        have hempty : s.registry = [] := List.eq_nil_of_length_eq_zero (by omega)
+        have hnone : ∀ k i, slotAt s.chunks k i = none := by
+          intro k i
+          cases hx : slotAt s.chunks k i with
+          | none => rfl
+          | some u =>
+            have := (hri k i).mpr (by simp [hx])
+            simp [hempty] at this
+        constructor
+        · simp
+        · exact hnd
+        · intro k i; simp [hempty, slotAt]
+        · intro u k i
+          simp only [slotAt, List.getElem?_nil, reduceCtorEq, iff_false]
+          intro hx
+          have := (hts u k i).mp hx
+          simp [hnone] at this
+        · simp only; omega
+      · simp only [Option.some.injEq, Prod.mk.injEq] at st
+        obtain ⟨rfl, -⟩ := st
+        exact ⟨hwf, hnd, hri, hts, by simp only; omega⟩
+    · simp at st
+
+theorem inv_reach {s : State} (h : Reach s) : Inv s := by
+  induction h with
+  | init => exact inv_init
+  | step _ st ih => exact inv_step ih st
 
 end UrcuVerif.BpArena
